@@ -24,7 +24,7 @@ def unesc(s):
 
 
 class Obs:
-    __slots__ = ('reports', 'ok', 'trace', 'clauses', 'outcome', 'q', 'qs', 'create', 'probe', 'assign', 'bad', 'exc_arg')
+    __slots__ = ('reports', 'ok', 'trace', 'clauses', 'outcome', 'q', 'qs', 'create', 'probe', 'assign', 'bad', 'exc_arg', 'destr')
 
     def __init__(self):
         self.reports = []   # (tag, sev, file, line, msg)
@@ -39,6 +39,7 @@ class Obs:
         self.assign = None
         self.bad = []
         self.exc_arg = None
+        self.destr = set()   # indices of reports sent while an object was being destroyed from inside a side effect
 
 
 _loc_line_re = re.compile(r'^(\S*shapes_\w+\.cpp):(\d+)$')
@@ -68,6 +69,7 @@ def parse_scenarios(text):
             ob = Obs()
             cur['ops'].append(ob)
             inprobe = False
+            indestr = 0
             continue
         if k == 'E':
             cur['ended'] = True
@@ -93,6 +95,8 @@ def parse_scenarios(text):
             if inprobe:
                 tgt.probe.append(('R', t[1]))
             else:
+                if indestr:
+                    tgt.destr.add(len(tgt.reports))
                 tgt.reports.append(rec)
         elif k == 'K':
             if inprobe:
@@ -127,6 +131,10 @@ def parse_scenarios(text):
                 tgt.trace.append((tid, rec[0], rec[1], '\n'.join(rec[2])))
         elif k == 'C':
             tgt.clauses.append((int(t[1]), t[2], int(t[3]), int(t[4])))
+        elif k == 'D{':
+            indestr += 1
+        elif k == 'D}':
+            indestr -= 1
         elif k == 'N{':
             tgt.clauses.append(('N{',))
         elif k == 'N}':
@@ -353,17 +361,17 @@ def compare(pred, obs, reg, is_call_op):
         add('harness', b)
 
     # ---- reporter routing and severity ---------------------------------------------------
-    for (tag, sev, f, line, msg) in obs.reports:
+    for ri, (tag, sev, f, line, msg) in enumerate(obs.reports):
         if tag != pred.rep:
             add('setrep', 'report delivered to reporter %s, installed is %s' % (tag, pred.rep))
-        want = 'F' if is_call_op else 'N'
+        want = 'F' if is_call_op and ri not in obs.destr else 'N'   # a destructor running inside a call still reports non-fatally
         if sev != want:
             add('report.severity', '%s report during %s: %r' % (sev, pred.kind, msg[:80]))
 
     # ---- reports: match predicted against observed ---------------------------------------
-    oreps = [dict(kind=classify(msg), file=base(f), line=line, msg=msg, sev=sev, used=False) for (tag, sev, f, line, msg) in obs.reports]
-    if not is_call_op:
-        for o in oreps:
+    oreps = [dict(kind=classify(msg), file=base(f), line=line, msg=msg, sev=sev, used=False, destr=(ri in obs.destr)) for ri, (tag, sev, f, line, msg) in enumerate(obs.reports)]
+    for o in oreps:
+        if not is_call_op or o['destr']:
             if o['kind'] == 'seq':
                 o['kind'] = 'destr_seq'   # a sequence mismatch detected while something is destroyed
 
@@ -399,22 +407,24 @@ def compare(pred, obs, reg, is_call_op):
     extra = [o for o in oreps if not o['used']]
 
     if is_call_op:
-        nfatal = sum(1 for o in oreps if o['sev'] == 'F')
-        rejected_obs = obs.outcome == ('fatal',) or len(oreps) > 0
+        # reports sent by a destruction that a side effect of this call carried out are the destruction's, not the call's verdict
+        creps = [o for o in oreps if not o['destr']]
+        nfatal = sum(1 for o in creps if o['sev'] == 'F')
+        rejected_obs = obs.outcome == ('fatal',) or len(creps) > 0
         if pred.accepted is True:
             if rejected_obs:
                 add('call.accept', 'model accepts (handler %s), implementation rejected: outcome %s, reports %s' %
-                    (pred.handler, obs.outcome, [(o['kind'], o['file'], o['line']) for o in oreps]))
+                    (pred.handler, obs.outcome, [(o['kind'], o['file'], o['line']) for o in creps]))
         elif pred.accepted is False:
             if not rejected_obs:
                 add('call.accept', 'model rejects (%s), implementation accepted: outcome %s' %
                     ([p['kind'] for p in pred.reports], obs.outcome))
             else:
-                if len(oreps) != 1 or nfatal != 1:
-                    add('call.reject.count', 'rejected call produced %d reports (%d fatal)' % (len(oreps), nfatal))
+                if len(creps) != 1 or nfatal != 1:
+                    add('call.reject.count', 'rejected call produced %d reports (%d fatal)' % (len(creps), nfatal))
                 elif missing or extra:
                     # one report, but about the wrong thing
-                    o = oreps[0]
+                    o = creps[0]
                     pr = pred.reports[0]
                     add('report.kind', 'expected %s at %s, got %s at %s:%d' % (pr['kind'], sorted(locs_of(pr)), o['kind'], o['file'], o['line']), (pr['kind'],))
                 eff = [c for c in obs.clauses if c[0] not in ('N{', 'N}') and c[1] in ('S', 'V', 'X')]
@@ -422,6 +432,13 @@ def compare(pred, obs, reg, is_call_op):
                     add('call.reject.effects', 'rejected call evaluated clauses %s' % eff)
                 if obs.outcome != ('fatal',):
                     add('call.reject.count', 'rejected call did not surface the fatal report to the caller: %s' % (obs.outcome,))
+        dmiss = [p for p in missing if p['sev'] == 'N']
+        dextra = [o for o in extra if o['destr']]
+        if pred.accepted is True and (dmiss or dextra):
+            kinds = set(p['kind'] for p in dmiss) | set(o['kind'] for o in dextra)
+            add('eol.reports', 'destruction inside the call: missing %s, unexpected %s' % (
+                [(p['kind'], sorted(locs_of(p))) for p in dmiss],
+                [(o['kind'], o['file'], o['line'], o['msg'][:80]) for o in dextra]), kinds)
     else:
         if missing or extra:
             kinds = set(p['kind'] for p in missing) | set(o['kind'] for o in extra)
@@ -506,7 +523,7 @@ def compare(pred, obs, reg, is_call_op):
             pass  # location already matched through locs_of
 
     # ---- outcome / handler / clauses -------------------------------------------------------
-    if is_call_op and pred.accepted is True and obs.outcome != ('fatal',) and not obs.reports:
+    if is_call_op and pred.accepted is True and obs.outcome != ('fatal',) and all(ri in obs.destr for ri in range(len(obs.reports))):
         po, oo = pred.outcome, obs.outcome
         if po != oo:
             pid = po[2] if po[0] == 'exc' else (po[1] if len(po) > 1 else None)
